@@ -471,7 +471,8 @@ Definition step_core (c : cfg) (s : state) (ch : cchoice) : option state :=
       | CTakeReq => if archiving s then Some (set_core s KAtBlk) else None
       end
   | KAtBlk => match ch with CTakeBlk => Some (set_core s KAtSel) | _ => None end
-  | KAtRet => match ch with CTakeBlk => Some (set_core s KDeact) | _ => None end
+  | KAtRet =>                                   (* return: the deferred function stops the writing (fix) *)
+      match ch with CTakeBlk => Some (set_core (if c_fixed c then set_writing s false else s) KDeact) | _ => None end
   | KDeact => match ch with CTakeBlk => Some (set_sst (set_core s KDone) Inactive) | _ => None end   (* deferred RunDoneDeactivate *)
   end.
 
